@@ -1,5 +1,9 @@
-// Package vchan models buffered channels stored in struct fields of instrumented files.
-// Send and Recv are blocking scheduling points (enabled iff the buffer is not full / not empty).
+// Package vchan models the channels of instrumented files. Buffered: Send and Recv are blocking
+// scheduling points (enabled iff the buffer is not full / not empty). Unbuffered: a sender offers
+// its value (one step, one offer at a time), blocks until a receiver has taken it (second step)
+// and panics there if the channel was closed meanwhile; Recv is enabled iff an offer is pending or
+// the channel is closed. A select may receive from an unbuffered channel; sending to one from a
+// select is refused (would need receiver registration).
 package vchan
 
 import (
@@ -18,6 +22,16 @@ type Chan[T any] struct {
 	sent   int
 	recvd  int
 	slot   []core.VC // clock of the receive that freed slot i (k-th receive happens before the (k+cap)-th send completes)
+
+	unbuf bool
+	offer *offerT[T] // unbuffered: the value a blocked sender holds out
+}
+
+type offerT[T any] struct {
+	v     T
+	vc    core.VC // sender's clock
+	rvc   core.VC // receiver's clock (a rendezvous synchronises both ways)
+	taken bool
 }
 
 func Make[T any](n int) *Chan[T] {
@@ -28,7 +42,7 @@ func Make[T any](n int) *Chan[T] {
 		panic("makechan: size out of range") // like the original
 	}
 	if n == 0 {
-		panic("vchan: unbuffered channels are not modelled")
+		return &Chan[T]{unbuf: true}
 	}
 	return &Chan[T]{cap: n, slot: make([]core.VC, n)}
 }
@@ -40,6 +54,10 @@ func (c *Chan[T]) Send(v T) {
 	}
 	if c == nil {
 		core.Point(core.KSend, nil, func() bool { return false })
+		return
+	}
+	if c.unbuf {
+		c.sendUnbuf(v)
 		return
 	}
 	core.Point(core.KSend, unsafe.Pointer(c), func() bool { return c.closed || len(c.buf) < c.cap })
@@ -61,6 +79,35 @@ func (c *Chan[T]) Send(v T) {
 	core.Done(core.KSend, unsafe.Pointer(c), 0)
 }
 
+func (c *Chan[T]) sendUnbuf(v T) {
+	core.Point(core.KSend, unsafe.Pointer(c), func() bool { return c.closed || c.offer == nil })
+	if core.Exiting() {
+		return
+	}
+	if c.closed {
+		panic("send on closed channel")
+	}
+	if core.Sequential() {
+		panic("vchan: send on an unbuffered channel in a sequential phase (would block forever)")
+	}
+	o := &offerT[T]{v: v}
+	core.Release(&o.vc, false)
+	c.offer = o
+	core.Done(core.KSend, unsafe.Pointer(c), 1)
+	core.Point(core.KSend, unsafe.Pointer(c), func() bool { return o.taken || c.closed })
+	if core.Exiting() {
+		return
+	}
+	if !o.taken {
+		if c.offer == o {
+			c.offer = nil
+		}
+		panic("send on closed channel")
+	}
+	core.Acquire(&o.rvc)
+	core.Done(core.KSend, unsafe.Pointer(c), 2)
+}
+
 func (c *Chan[T]) Recv() T {
 	v, _ := c.Recv2()
 	return v
@@ -75,6 +122,26 @@ func (c *Chan[T]) Recv2() (T, bool) {
 	if c == nil {
 		core.Point(core.KRecv, nil, func() bool { return false })
 		return zero, false
+	}
+	if c.unbuf {
+		core.Point(core.KRecv, unsafe.Pointer(c), func() bool { return c.closed || c.offer != nil })
+		if core.Exiting() {
+			return zero, false
+		}
+		if c.closed { // a sender still blocked on a closed channel panics on its side
+			core.Done(core.KRecv, unsafe.Pointer(c), 0)
+			return zero, false
+		}
+		if c.offer == nil {
+			panic("vchan: receive from an unbuffered channel without sender in a sequential phase (would block forever)")
+		}
+		o := c.offer
+		c.offer = nil
+		core.Acquire(&o.vc)
+		core.Release(&o.rvc, false)
+		o.taken = true
+		core.Done(core.KRecv, unsafe.Pointer(c), 1)
+		return o.v, true
 	}
 	core.Point(core.KRecv, unsafe.Pointer(c), func() bool { return c.closed || len(c.buf) > 0 })
 	if core.Exiting() {
@@ -149,6 +216,12 @@ type selChan interface {
 
 func (c *Chan[T]) isNil() bool { return c == nil }
 func (c *Chan[T]) ready(send bool) bool {
+	if c.unbuf {
+		if send {
+			panic("vchan: a select that sends on an unbuffered channel is not modelled")
+		}
+		return c.closed || c.offer != nil
+	}
 	if send {
 		return c.closed || len(c.buf) < c.cap
 	}
@@ -228,6 +301,9 @@ func (c *Chan[T]) SendWith(v T, cancelled func() bool, onSend func()) bool {
 	if !core.Controlled {
 		c.real <- v
 		return true
+	}
+	if c.unbuf {
+		panic("vchan: SendWith on an unbuffered channel")
 	}
 	core.Point(core.KSend, unsafe.Pointer(c), func() bool {
 		return (cancelled != nil && cancelled()) || c.closed || len(c.buf) < c.cap
